@@ -177,7 +177,7 @@ def rig_p(chk, tier, seed):
     for variant in variants:
         steps = 350 if tier == "quick" else (12000 if variant == "rel" else 2500)
         knobs = {"sessions": 4, "versions": ["v3"], "auths": ["md5", "sha1"], "privs": ["des", "aes"], "reply_pad": True,
-                 "beh_weights": [70, 6, 12, 12], "timeout": 0.5,
+                 "beh_weights": [70, 6, 12, 12], "timeout": 0.5, "ident_wild": 0.06,
                  "ops": ["get", "get_many", "getnext", "getbulk", "fetch", "refresh", "oversize", "get", "get_many"]}
         jobs = [{"seed": seed * 99989 + i, "steps": steps, "aspects": ASPECTS,
                  "knobs": dict(knobs, **({"shared_pw": "samepass%d" % i, "sessions": 6, "key_types": ["password", "password", "password", "master"],
